@@ -1,9 +1,49 @@
-//! C03 sessions (seeded driver). Fill in.
+//! C03 sessions: (a) arbitrary and mutated strings into every parser, (b) every zone of the bundled database probed through
+//! the public ZonedDateTime API at extreme and transition-adjacent instants. The trace spec only asks that each outcome is in
+//! the alphabet {ok, type, range, syntax, generic} - never panic / assert / timeout.
 use super::Tracer;
 use crate::gen::*;
+use crate::js::big;
 use crate::rng::Rng;
-use serde_json::json;
+use serde_json::{json, Value};
+
+const PARSERS: [&str; 13] = ["Parse.PlainDate", "Parse.PlainDateTime", "Parse.PlainTime", "Parse.PlainYearMonth", "Parse.PlainMonthDay", "Parse.Instant", "Parse.Duration",
+    "Parse.ZonedDateTime", "Parse.UtcOffset", "Parse.TimeZone", "Parse.TimeZoneId", "Parse.MonthCode", "Parse.Calendar"];
+const SEEDS: [&str; 16] = ["2020-01-01", "2020-01-01T12:30:45.123456789", "-271821-04-19T00:00Z", "+275760-09-13T23:59:59.999999999+00:00[UTC]", "12:30", "T123045", "2020-02", "--02-29", "02-29",
+    "P1Y2M3W4DT5H6M7.000000008S", "-PT9007199254740991S", "+05:30", "America/New_York", "M05L", "2020-01-01[u-ca=hebrew]", "2020-01-01T00:00+00:00[!u-ca=iso8601][foo=bar]"];
+const ALPHA: &str = "0123456789-+:.,TZtz[]=!PYMWDHSuca/ _\u{2212}\u{e9}\u{0}\u{7f}ABC";
+pub const QUICK_ZONES: [&str; 14] = ["UTC", "America/New_York", "Europe/Dublin", "Europe/London", "Australia/Sydney", "Asia/Kolkata", "Asia/Kathmandu", "Pacific/Apia", "America/St_Johns", "Africa/Casablanca",
+    "Asia/Tokyo", "Etc/GMT+5", "Australia/Lord_Howe", "Antarctica/Troll"];
+const CALLS: [&str; 9] = ["fields", "toString", "startOfDay", "hoursInDay", "addDay", "subMonth", "untilEpoch", "fromLocal", "withPlainTime"];
+
+fn chars(s: &str) -> Value { Value::Array(s.chars().map(|c| json!(c.to_string())).collect()) }
+fn mutate(r: &mut Rng, s: &str) -> String {
+    let mut v: Vec<char> = s.chars().collect(); let al: Vec<char> = ALPHA.chars().collect();
+    for _ in 0..r.range(1, 4) {
+        let pos = if v.is_empty() { 0 } else { r.range(0, v.len() as i64 - 1) as usize };
+        match r.range(0, 3) { 0 if !v.is_empty() => { v.remove(pos); } 1 => { v.insert(pos.min(v.len()), *r.pick(&al)); } 2 if !v.is_empty() => { v[pos] = *r.pick(&al); } _ => { let c = *r.pick(&al); for _ in 0..r.range(1, 40) { v.push(c); } } }
+    }
+    v.into_iter().collect()
+}
+fn random_string(r: &mut Rng) -> String { let al: Vec<char> = ALPHA.chars().collect(); (0..r.range(0, 40)).map(|_| *r.pick(&al)).collect() }
 
 pub fn drive(t: &mut Tracer, r: &mut Rng, n: usize) {
-    let _ = (t, r, n);
+    let zones: Vec<String> = if std::env::var("VERIF_TIER").ok().as_deref() == Some("thorough") {
+        std::fs::read_to_string("/usr/share/zoneinfo/tzdata.zi").map(|s| s.lines().filter_map(|l| { let mut it = l.split_whitespace(); match it.next() { Some("Z") => it.next().map(|x| x.to_string()), Some("L") => { it.next(); it.next().map(|x| x.to_string()) } _ => None } }).collect()).unwrap_or_default()
+    } else { QUICK_ZONES.iter().map(|s| s.to_string()).collect() };
+    // instants: range ends, year 1, LMT era, classic transition seconds, after the tables, far future
+    let labelled: Vec<(&str, i128)> = vec![("min", -MAX_INSTANT), ("max", MAX_INSTANT), ("year-1", -62_135_596_800_000_000_000), ("lmt-1883", -2_717_650_800_000_000_000), ("pre-1970", -1_000_000_000_123_456_789),
+        ("epoch", 0), ("2021-dst", 1_615_705_200_000_000_000), ("2021-dst-1ns", 1_615_705_199_999_999_999), ("2040", 2_208_988_800_000_000_000), ("9999", 253_402_300_799_000_000_000)];
+    let mut zi = 0usize;
+    while t.n < n {
+        if r.chance(2, 3) {
+            let s = match r.range(0, 2) { 0 => random_string(r), 1 => { let a = *r.pick(&SEEDS[..]); mutate(r, a) } _ => { let a = *r.pick(&SEEDS[..]); let b = *r.pick(&SEEDS[..]); format!("{}{}", a, mutate(r, b)) } };
+            t.call(*r.pick(&PARSERS[..]), json!({"chars": chars(&s)}));
+        } else if !zones.is_empty() {
+            let z = &zones[zi % zones.len()]; zi += 1;
+            let (lbl, ns) = if r.chance(1, 4) { ("random", r.range128(-MAX_INSTANT, MAX_INSTANT)) } else { *r.pick(&labelled) };
+            t.call("RealZone.probe", json!({"zone": z, "ns": big(ns), "lbl": lbl, "call": *r.pick(&CALLS[..])}));
+        }
+        if t.n % 50 == 0 { t.reset(); }
+    }
 }
